@@ -413,6 +413,7 @@ func (m *Machine) DisposeForce() {
 }
 
 func (m *Machine) doDispose(force bool) {
+	verifAt(m, "dd.enter")
 	// fmt.Println("doDispose " + m.Id())
 	if m.disposed.Load() {
 		// already disposed
@@ -422,6 +423,7 @@ func (m *Machine) doDispose(force bool) {
 		// already disposing
 		return
 	}
+	verifAt(m, "dd.disposing")
 	if !force {
 		whenIdle := m.WhenQueueEnds()
 		select {
@@ -434,6 +436,7 @@ func (m *Machine) doDispose(force bool) {
 		// already disposed
 		return
 	}
+	verifAt(m, "dd.disposed")
 
 	m.tracersMx.RLock()
 	for i := range m.tracers {
@@ -455,6 +458,7 @@ func (m *Machine) doDispose(force bool) {
 		defer m.queueMx.Unlock()
 	}
 
+	verifAt(m, "dd.locked")
 	m.log(LogEverything, "[end] doDispose")
 	if m.Err() == nil && m.ctx.Err() != nil {
 		err := m.ctx.Err()
@@ -478,6 +482,7 @@ func (m *Machine) doDispose(force bool) {
 
 	close(m.errInternal)
 	m.subs.dispose()
+	verifAt(m, "dd.subsDisposed")
 	for _, mut := range m.queue {
 		if !mut.IsCheck {
 			continue
@@ -501,6 +506,7 @@ func (m *Machine) doDispose(force bool) {
 		m.queueProcessing.Store(false)
 	}
 
+	verifAt(m, "dd.handlers")
 	// run doDispose handlers
 	// TODO timeouts?
 	for _, fn := range m.disposeHandlers {
@@ -513,6 +519,7 @@ func (m *Machine) doDispose(force bool) {
 	m.cancel()
 	// fmt.Println("DISPOSED " + m.Id())
 	closeSafe(m.whenDisposed)
+	verifAt(m, "dd.done")
 }
 
 func (m *Machine) getHandlers(locked bool) []*handler {
@@ -835,6 +842,7 @@ func (m *Machine) PrependMut(mut *Mutation) Result {
 		mut.QueueToken = m.queueToken.Add(1)
 		mut.QueueTickNow = m.queueTick
 	}
+	verifAt(m, "pm.prepended")
 	m.queueMx.Unlock()
 
 	// tracers
@@ -1351,7 +1359,9 @@ func (m *Machine) queueMutation(
 	// fmt.Printf("mut.QueueTick %d\n", mut.QueueTick)
 	mut.QueueTickNow = m.queueTick
 	// fmt.Printf("mut.QueueTickNow %d\n", mut.QueueTickNow)
+	verifAt(m, "qm.appended")
 	m.queueMx.Unlock()
+	verifAt(m, "qm.done")
 
 	// tracers
 	m.log(LogOps, "[queue:%s] %s%s", mutType, j(statesParsed),
@@ -2035,8 +2045,10 @@ func (m *Machine) processQueue() Result {
 		return Canceled
 	}
 
+	verifAt(m, "pq.enter")
 	// try to acquire the lock TODO safer locking for handler deadlines?
 	if !m.queueProcessing.CompareAndSwap(false, true) {
+		verifAt(m, "pq.casLost")
 
 		m.queueMx.Lock()
 		defer m.queueMx.Unlock()
@@ -2053,6 +2065,7 @@ func (m *Machine) processQueue() Result {
 	var ret []Result
 
 	// execute the queue
+	verifAt(m, "pq.casWon")
 	m.queueRunning.Store(false)
 	for m.queueLen.Load() > 0 {
 		m.queueRunning.Store(true)
@@ -2077,6 +2090,7 @@ func (m *Machine) processQueue() Result {
 			m.queueTick += 1
 		}
 		m.queueMx.Unlock()
+		verifAt(m, "pq.popped")
 
 		// support for context cancelation
 		if mut.ctx != nil && mut.ctx.Err() != nil {
@@ -2114,6 +2128,7 @@ func (m *Machine) processQueue() Result {
 		} else if t.IsAccepted.Load() && !t.Mutation.IsCheck {
 			// TODO optimize process only when ticks change (incl queue tick)
 			// TODO optimize: check sub ctxs also on canceled txs
+			verifAt(m, "pq.beforeSubs")
 			m.processSubscriptions(t)
 		}
 
@@ -2121,11 +2136,13 @@ func (m *Machine) processQueue() Result {
 	}
 
 	// release the locks
+	verifAt(m, "pq.loopExit")
 	m.t.Store(nil)
 	m.queueProcessing.Store(false)
 	m.queueRunning.Store(false)
 
 	// tracers
+	verifAt(m, "pq.released")
 	m.tracersMx.RLock()
 	for i := 0; !m.disposing.Load() && i < len(m.tracers); i++ {
 		m.tracers[i].QueueEnd(m)
@@ -2139,6 +2156,7 @@ func (m *Machine) processQueue() Result {
 	}
 	m.queueMx.Unlock()
 
+	verifAt(m, "pq.queueEnd")
 	if len(ret) == 0 {
 		return Canceled
 	}
@@ -2484,6 +2502,7 @@ func (m *Machine) processHandlers(e *Event) (Result, bool) {
 }
 
 func (m *Machine) handlerLoop() {
+	defer verifAt(m, "hl.exit")
 	ver := m.handlerLoopVer.Add(1)
 	var event *Event
 	catch := func() {
